@@ -200,7 +200,8 @@ Lemma num_head t : num_ok t = true ->
   is_ws c = false /\ is_numc c = true /\ N.eqb c 34 = false /\ N.eqb c 91 = false /\ N.eqb c 93 = false /\
   N.eqb c 123 = false /\ N.eqb c 125 = false /\ N.eqb c 110 = false /\ N.eqb c 116 = false /\ N.eqb c 102 = false.
 Proof.
-  destruct t as [|c r]; [discriminate|]. unfold num_ok. intros H. apply andb_true_iff in H. destruct H as [H1 H2].
+  destruct t as [|c r]; [discriminate|]. unfold num_ok. intros H. apply andb_true_iff in H. destruct H as [H _].
+  apply andb_true_iff in H. destruct H as [H1 H2].
   exists c, r. split; [reflexivity|]. split; [exact H2|].
   apply orb_true_iff in H1. destruct H1 as [H1|H1]; [now apply digit_facts|].
   apply N.eqb_eq in H1. subst. repeat split; reflexivity.
@@ -532,7 +533,8 @@ Proof.
       destruct Hc1 as [Hq|Hq]; [rewrite A in Hq|rewrite B in Hq]; discriminate Hq.
     + pose proof (pv_ext F p v1 [] t HF (or_intror En)) as X. rewrite Hfull in X.
       injection X as _ Ht'. cbn [app] in Ht'. apply Ht. symmetry. exact Ht'.
-  - pose proof (pv_ext F p v1 (c0 :: r0) t HF (or_introl ltac:(discriminate))) as X.
+  - assert (Hne : c0 :: r0 <> []) by discriminate.
+    pose proof (pv_ext F p v1 (c0 :: r0) t HF (or_introl Hne)) as X.
     rewrite Hfull in X. injection X as _ Ht'. cbn [app] in Ht'. discriminate Ht'.
 Qed.
 
